@@ -363,7 +363,7 @@ C18_NonTrivial(c, r, v, g) == c.n >= 3 /\ r.nev > 0
 
 (* C15 (layer-1 part) -- every concurrent call returns exactly what it returns when run alone: *)
 (* the group's reference is the sequential run, rel "conc" members ran concurrently           *)
-C15_Applies(c, r, v, g) == c.rel = "conc" /\ g # <<>>
+C15_Applies(c, r, v, g) == c.rel = "conc" /\ g # <<>> /\ c.p1 # "greedyrand"
 C15_Fail(c, r, v, g) == If(SameOut(r, g[1].r), "SequentialEquivalent")
 C15_NonTrivial(c, r, v, g) == c.n >= 3
 
